@@ -1,23 +1,61 @@
 (* C17 — Unhashable dict keys produce an error, never a panic or a dropped entry. *)
 From Coq Require Import List ZArith NArith Bool.
-From OgRek Require Import Base Value PyEq Dict PyEqFacts DictFacts.
+From OgRek Require Import Base Value PyEq Dict Reader Decoder PyEqFacts DictFacts DecoderFacts.
 Import ListNotations.
 
-(* Direct API: for every Dict state and every key the hash function rejects, Get, Set and Del
-   panic ("unhashable type: ...", None in the model) before any entry is read or written, so the
-   contents are unchanged - including on an EMPTY Dict. *)
+(* ---- Decode: every opcode that inserts keys --------------------------------------------------- *)
+(* key_rejected m k: the target m cannot hold k - a builtin map rejects what the Go runtime
+   cannot hash (slice, map, Tuple, Call, bytearray, at any depth inside a Ref id), a Dict rejects
+   what og-rek's hash rejects (list, dict, map, bytearray at any depth inside Tuple / Call
+   arguments / Ref id). *)
+
+Theorem C17_setitem_errors :
+  forall cfg key insn st v k m t,
+    d_stack st = v :: k :: m :: t -> is_mark k = false -> is_mark v = false ->
+    (exists id, m = VMap id \/ m = VDict id) -> key_rejected m k ->
+    handler cfg OSetitem key insn st = Ret (HErr (set_stack st (m :: t)) EOther).
+Proof. exact setitem_rejects. Qed.
+Print Assumptions C17_setitem_errors.
+
+Theorem C17_setitems_errors :
+  forall cfg key insn st above m t,
+    split_mark (d_stack st) = Some (above, m :: t) -> Nat.odd (length above) = false ->
+    (exists id, m = VMap id \/ m = VDict id) ->
+    (exists k, In k (keys_of (rev above)) /\ key_rejected m k) ->
+    exists h, handler cfg OSetitems key insn st = Ret (HErr (set_heap st h) EOther).
+Proof. exact setitems_rejects. Qed.
+Print Assumptions C17_setitems_errors.
+
+Theorem C17_dict_errors :
+  forall cfg key insn st above below,
+    split_mark (d_stack st) = Some (above, below) -> Nat.odd (length above) = false ->
+    (exists k, In k (keys_of (rev above)) /\
+               (if c_pydict cfg then hashable k = false else go_unhashable k = true)) ->
+    handler cfg ODict key insn st = Ret (HErr st EOther).
+Proof. exact dict_rejects. Qed.
+Print Assumptions C17_dict_errors.
+
+(* an error result of a handler is what Decode returns (never a panic: C04) - by the loop's
+   definition, HErr st e ends the call with Err e *)
+
+(* ---- direct API ---------------------------------------------------------------------------------- *)
+(* For every Dict state, every slot order and every key the hash function rejects, Get, Set and
+   Del panic ("unhashable type: ...", None in the model) before any entry is read or written, so
+   the contents are unchanged - including on an EMPTY Dict. *)
 Theorem C17_api :
   forall ch k v es, hashable k = false ->
     dict_get ch k es = None /\ dict_set ch k v es = None /\ dict_del ch k es = None.
 Proof. exact unhashable_panics. Qed.
 Print Assumptions C17_api.
 
-(* which keys are unhashable: lists, dicts, maps, bytearrays, at any depth inside Tuple,
-   Call arguments, Ref id *)
+(* which keys are rejected: at depth 0..3 inside Tuple, Call arguments, Ref id *)
 Example C17_unhashable_examples :
   hashable (VList 0%N []) = false /\ hashable (VBArr []) = false /\ hashable (VMap 0%N) = false /\
   hashable (VDict 0%N) = false /\
   hashable (VTuple [VInt 1; VTuple [VList 0%N []]]) = false /\
   hashable (VCall [] [] [VRef (VBArr [])]) = false /\
-  hashable (VTuple [VInt 1; VStr []]) = true.
+  hashable (VRef (VRef (VTuple [VCall [] [] [VDict 0%N]]))) = false /\
+  hashable (VTuple [VInt 1; VStr []]) = true /\
+  go_unhashable (VTuple []) = true /\ go_unhashable (VRef (VRef (VList 0%N []))) = true /\
+  go_unhashable (VRef (VInt 1)) = false.
 Proof. vm_compute. repeat split. Qed.
